@@ -85,7 +85,10 @@ func (c *Conn) readMessage() error {
 	// MUST be 0 unless an extension is negotiated that defines meanings for non-zero values.
 	// If a nonzero value is received and none of the negotiated extensions defines the meaning of such a nonzero value,
 	// the receiving endpoint MUST _Fail the WebSocket Connection_.
-	if !c.pd.Enabled && (c.fh.GetRSV1() || c.fh.GetRSV2() || c.fh.GetRSV3()) {
+	// permessage-deflate gives a meaning to RSV1 only, and only on the first frame of a data message.
+	var opcode = c.fh.GetOpcode()
+	var rsv1Allowed = c.pd.Enabled && (opcode == OpcodeText || opcode == OpcodeBinary)
+	if c.fh.GetRSV2() || c.fh.GetRSV3() || (c.fh.GetRSV1() && !rsv1Allowed) {
 		return internal.CloseProtocolError
 	}
 
@@ -94,7 +97,6 @@ func (c *Conn) readMessage() error {
 		return err
 	}
 
-	var opcode = c.fh.GetOpcode()
 	var compressed = c.pd.Enabled && c.fh.GetRSV1()
 	if !opcode.isDataFrame() {
 		return c.readControl()
